@@ -15,6 +15,37 @@
 (* finds its log already requested by another group waits for that         *)
 (* request to finish); FALSE is the code before the repair of finding F7,  *)
 (* kept so that TLC shows the counterexample (SubmissionOld.cfg).          *)
+(*                                                                         *)
+(* OUTCOMES.  What Submitter.SubmitToLog hands back is a pair (sct, err).  *)
+(* The property speaks of three outcomes of a log - SCT, error, hang; the  *)
+(* pair has four shapes, and a real log client produces all of them        *)
+(* ("both" = a parsed SCT together with the error that says why it must    *)
+(* not be used, e.g. its signature does not verify under the listed key).  *)
+(*   "sct"     (sct, nil)   the only shape that is an SCT                  *)
+(*   "err"     (nil, err)                                                  *)
+(*   "both"    (sct, err)   ErrorWins: an outcome that carries an error is *)
+(*                          an error outcome whatever else it carries      *)
+(*   "neither" (nil, nil)   NothingIsNoSCT: no SCT was obtained            *)
+(*   "hang"    returns only once its request is cancelled                  *)
+(*                                                                         *)
+(* SESSIONS.  A group race does not run over the members of the group but  *)
+(* over the group's submission session: the members whose weight is        *)
+(* positive (ctpolicy.GetSubmissionSession; weights are changed by         *)
+(* SetLogWeight / SetLogWeights, see SubmissionWeights.tla, which keeps    *)
+(* >= Min[g] members of every group in its session).  sess is chosen in    *)
+(* the initial state from Sessions; a goroutine exists for (g, l) only if  *)
+(* l \in sess[g].  An SCT of a log still counts for every group the log is *)
+(* a member of, whoever asked for it.                                      *)
+(*                                                                         *)
+(* RecomputeVerdict = FALSE is GetSCTs as written: the verdict is the      *)
+(* conjunction of what the group races returned.  With full sessions that  *)
+(* is the same as judging the shared state when GetSCTs returns; with      *)
+(* sessions smaller than the groups it is not - a race whose own logs have *)
+(* all failed returns false, and an SCT that another group later obtains   *)
+(* from a member outside the race's session completes the group after its  *)
+(* verdict (TLC: FailureHonest and SuccessComplete fail,                   *)
+(* SubmissionDuoSessionsOld.cfg).  TRUE judges every group by the shared   *)
+(* state once all races are over, which is what the property demands.      *)
 (***************************************************************************)
 EXTENDS Integers, Sequences, FiniteSets, TLC
 
@@ -24,9 +55,11 @@ CONSTANTS
   Members,          \* [Groups -> SUBSET Logs]
   Min,              \* [Groups -> Nat]   MinInclusions
   Base,             \* name of the base group ("All-logs") or "none"
-  Outcomes,         \* the outcomes a log may have: subset of {"sct", "err", "hang"}
+  Outcomes,         \* the outcomes a log may have: subset of {"sct", "err", "both", "neither", "hang"}
+  Sessions,         \* the session assignments explored: subset of [Groups -> SUBSET Logs], sess[g] \subseteq Members[g]
   MayCancel,        \* BOOLEAN: the caller's context may end
-  WaitForInflight   \* BOOLEAN: see above
+  WaitForInflight,  \* BOOLEAN: see above
+  RecomputeVerdict  \* BOOLEAN: see above
 
 NoRet == [k |-> "none"]
 GroupsOf(l) == {g \in Groups : l \in Members[g]}
@@ -47,9 +80,20 @@ VARIABLES
   ret,        \* NoRet or [k |-> "ret", err |-> BOOLEAN, scts |-> SUBSET Logs, cancelled |-> BOOLEAN]
   ctxDone,    \* the caller's context has ended
   submits,    \* [Logs -> Nat]              how many times SubmitToLog was called for the log (history)
-  outcome     \* [Logs -> Outcomes]         what each log answers (chosen in the initial state, never changes)
+  outcome,    \* [Logs -> Outcomes]         what each log answers (chosen in the initial state, never changes)
+  sess        \* [Groups -> SUBSET Logs]    the submission session of each group (chosen in the initial state)
 
-vars == <<needs, results, cancels, cancelled, done, pc, collected, gstate, consumed, gcomplete, ret, ctxDone, submits, outcome>>
+vars == <<needs, results, cancels, cancelled, done, pc, collected, gstate, consumed, gcomplete, ret, ctxDone, submits, outcome, sess>>
+
+\* the classification of outcomes (clauses ErrorWins, NothingIsNoSCT above)
+IsSCT(o) == o = "sct"
+IsHang(o) == o = "hang"
+IsError(o) == o \in {"err", "both", "neither"}
+Answering == {l \in Logs : IsSCT(outcome[l])}
+
+\* every session assignment that leaves each group able to reach its minimum (what SubmissionWeights.tla maintains)
+FullSessions == {[g \in Groups |-> Members[g]]}
+ViableSessions == {s \in [Groups -> SUBSET Logs] : \A g \in Groups : s[g] \subseteq Members[g] /\ Cardinality(s[g]) >= Min[g]}
 
 Complete(g) == needs[g] <= 0
 Awaited(l) == \E g \in GroupsOf(l) : needs[g] > 0
@@ -85,7 +129,8 @@ Init ==
   /\ cancels = [l \in Logs |-> FALSE]
   /\ cancelled = [l \in Logs |-> FALSE]
   /\ done = [l \in Logs |-> FALSE]
-  /\ pc = [p \in Pairs |-> "timer"]
+  /\ sess \in Sessions
+  /\ pc = [p \in Pairs |-> IF p[2] \in sess[p[1]] THEN "timer" ELSE "absent"]
   /\ collected = [g \in Groups |-> 0]
   /\ gstate = [g \in Groups |-> "running"]
   /\ consumed = {}
@@ -100,13 +145,13 @@ Init ==
 TimerFires(p) ==
   /\ pc[p] = "timer"
   /\ pc' = [pc EXCEPT ![p] = IF ctxDone THEN "counted" ELSE "check"]
-  /\ UNCHANGED <<needs, results, cancels, cancelled, done, collected, gstate, consumed, gcomplete, ret, ctxDone, submits, outcome>>
+  /\ UNCHANGED <<needs, results, cancels, cancelled, done, collected, gstate, consumed, gcomplete, ret, ctxDone, submits, outcome, sess>>
 
 \* if state.groupComplete(group.Name) { cancel(); return }
 CheckComplete(p) ==
   /\ pc[p] = "check"
   /\ pc' = [pc EXCEPT ![p] = IF Complete(p[1]) THEN "counted" ELSE "request"]
-  /\ UNCHANGED <<needs, results, cancels, cancelled, done, collected, gstate, consumed, gcomplete, ret, ctxDone, submits, outcome>>
+  /\ UNCHANGED <<needs, results, cancels, cancelled, done, collected, gstate, consumed, gcomplete, ret, ctxDone, submits, outcome, sess>>
 
 Request(p) ==
   LET l == p[2] k == RequestKind(l) IN
@@ -122,16 +167,16 @@ Request(p) ==
                    /\ pc' = [pc EXCEPT ![p] = "submitting"]
                    /\ UNCHANGED done
   /\ submits' = IF k = "first" THEN [submits EXCEPT ![l] = submits[l] + 1] ELSE submits
-  /\ UNCHANGED <<needs, cancelled, collected, gstate, consumed, gcomplete, ret, ctxDone, outcome>>
+  /\ UNCHANGED <<needs, cancelled, collected, gstate, consumed, gcomplete, ret, ctxDone, outcome, sess>>
 
 \* the submitter returns: with the log's outcome, or with an error once the request is cancelled
 SubmitReturns(p, withSCT) ==
   LET l == p[2] IN
   /\ pc[p] = "submitting"
-  /\ IF withSCT THEN outcome[l] = "sct" /\ ~cancelled[l] /\ ~ctxDone
-     ELSE outcome[l] = "err" \/ cancelled[l] \/ ctxDone
+  /\ IF withSCT THEN IsSCT(outcome[l]) /\ ~cancelled[l] /\ ~ctxDone
+     ELSE IsError(outcome[l]) \/ cancelled[l] \/ ctxDone
   /\ pc' = [pc EXCEPT ![p] = IF withSCT THEN "setsct" ELSE "seterr"]
-  /\ UNCHANGED <<needs, results, cancels, cancelled, done, collected, gstate, consumed, gcomplete, ret, ctxDone, submits, outcome>>
+  /\ UNCHANGED <<needs, results, cancels, cancelled, done, collected, gstate, consumed, gcomplete, ret, ctxDone, submits, outcome, sess>>
 
 SetResult(p) ==
   LET l == p[2] IN
@@ -147,18 +192,18 @@ SetResult(p) ==
              /\ cancels' = keep
   /\ done' = [done EXCEPT ![l] = TRUE]
   /\ pc' = [pc EXCEPT ![p] = "counted"]
-  /\ UNCHANGED <<collected, gstate, consumed, gcomplete, ret, ctxDone, submits, outcome>>
+  /\ UNCHANGED <<collected, gstate, consumed, gcomplete, ret, ctxDone, submits, outcome, sess>>
 
 \* (repaired code) a de-duplicated goroutine waits until the request made for another group has finished
 WaitEnds(p) ==
   /\ pc[p] = "waiting"
   /\ done[p[2]] \/ ctxDone
   /\ pc' = [pc EXCEPT ![p] = "counted"]
-  /\ UNCHANGED <<needs, results, cancels, cancelled, done, collected, gstate, consumed, gcomplete, ret, ctxDone, submits, outcome>>
+  /\ UNCHANGED <<needs, results, cancels, cancelled, done, collected, gstate, consumed, gcomplete, ret, ctxDone, submits, outcome, sess>>
 
 (* ------------- the collector of a group race ------------- *)
 NCounted(g) == Cardinality({p \in Pairs : p[1] = g /\ pc[p] = "counted"})
-Session(g) == Cardinality(Members[g])
+Session(g) == Cardinality(sess[g])
 
 \* case <-counter: if complete return true; after the last one: return complete
 GroupCollect(g) ==
@@ -167,19 +212,19 @@ GroupCollect(g) ==
   /\ collected' = [collected EXCEPT ![g] = collected[g] + 1]
   /\ gstate' = [gstate EXCEPT ![g] = IF Complete(g) THEN "true"
                                      ELSE IF collected[g] + 1 = Session(g) THEN "false" ELSE "running"]
-  /\ UNCHANGED <<needs, results, cancels, cancelled, done, pc, consumed, gcomplete, ret, ctxDone, submits, outcome>>
+  /\ UNCHANGED <<needs, results, cancels, cancelled, done, pc, consumed, gcomplete, ret, ctxDone, submits, outcome, sess>>
 
 \* case <-ctx.Done(): return complete
 GroupCtxDone(g) ==
   /\ gstate[g] = "running" /\ ctxDone
   /\ gstate' = [gstate EXCEPT ![g] = IF Complete(g) THEN "true" ELSE "false"]
-  /\ UNCHANGED <<needs, results, cancels, cancelled, done, pc, collected, consumed, gcomplete, ret, ctxDone, submits, outcome>>
+  /\ UNCHANGED <<needs, results, cancels, cancelled, done, pc, collected, consumed, gcomplete, ret, ctxDone, submits, outcome, sess>>
 
 \* a group with no logs at all returns at once
 GroupEmpty(g) ==
   /\ gstate[g] = "running" /\ Session(g) = 0
   /\ gstate' = [gstate EXCEPT ![g] = IF Complete(g) THEN "true" ELSE "false"]
-  /\ UNCHANGED <<needs, results, cancels, cancelled, done, pc, collected, consumed, gcomplete, ret, ctxDone, submits, outcome>>
+  /\ UNCHANGED <<needs, results, cancels, cancelled, done, pc, collected, consumed, gcomplete, ret, ctxDone, submits, outcome, sess>>
 
 (* ------------- GetSCTs ------------- *)
 SCTs == {l \in Logs : results[l] = "sct"}
@@ -188,18 +233,20 @@ TopCollect(g) ==
   /\ ret = NoRet /\ g \notin consumed /\ gstate[g] # "running"
   /\ consumed' = consumed \cup {g}
   /\ gcomplete' = [gcomplete EXCEPT ![g] = gstate[g] = "true"]
-  /\ UNCHANGED <<needs, results, cancels, cancelled, done, pc, collected, gstate, ret, ctxDone, submits, outcome>>
+  /\ UNCHANGED <<needs, results, cancels, cancelled, done, pc, collected, gstate, ret, ctxDone, submits, outcome, sess>>
 
 Return ==
   /\ ret = NoRet
   /\ consumed = Groups \/ ctxDone
-  /\ ret' = [k |-> "ret", err |-> \E g \in Groups : ~gcomplete[g], scts |-> SCTs, cancelled |-> ctxDone]
-  /\ UNCHANGED <<needs, results, cancels, cancelled, done, pc, collected, gstate, consumed, gcomplete, ctxDone, submits, outcome>>
+  /\ ret' = [k |-> "ret",
+              err |-> IF RecomputeVerdict THEN \E g \in Groups : ~Complete(g) ELSE \E g \in Groups : ~gcomplete[g],
+              scts |-> SCTs, cancelled |-> ctxDone]
+  /\ UNCHANGED <<needs, results, cancels, cancelled, done, pc, collected, gstate, consumed, gcomplete, ctxDone, submits, outcome, sess>>
 
 Cancel ==
   /\ MayCancel /\ ~ctxDone /\ ret = NoRet
   /\ ctxDone' = TRUE
-  /\ UNCHANGED <<needs, results, cancels, cancelled, done, pc, collected, gstate, consumed, gcomplete, ret, submits, outcome>>
+  /\ UNCHANGED <<needs, results, cancels, cancelled, done, pc, collected, gstate, consumed, gcomplete, ret, submits, outcome, sess>>
 
 Next ==
   \/ \E p \in Pairs : TimerFires(p) \/ CheckComplete(p) \/ Request(p) \/ SetResult(p) \/ WaitEnds(p)
@@ -239,13 +286,24 @@ FailureHonest == (ret # NoRet /\ ret.err /\ ~ret.cancelled) => ~Satisfies(ret.sc
 NeedsAccount == \A g \in Groups \ {Base} :
                    needs[g] = Min[g] - Cardinality({l \in Members[g] : results[l] \in {"sct", "dropped"}})
 
+\* only an outcome without error is an SCT: what is kept, counted or returned comes from logs that answered with one
+OnlyAnswersCount == /\ \A l \in Logs : results[l] \in {"sct", "dropped"} => IsSCT(outcome[l])
+                    /\ (ret # NoRet => ret.scts \subseteq Answering)
+
+\* a log is only sent the chain on behalf of a group that has it in its session
+OnlySessionLogsContacted == \A l \in Logs : submits[l] > 0 => \E g \in Groups : l \in sess[g]
+
 \* only requests that were started are ever cancelled
 CancelSound == \A l \in Logs : cancelled[l] => results[l] # "none"
 
 \* it always terminates
 Terminates == <>(ret # NoRet)
 
-\* when enough logs answer successfully and the caller does not cancel, success is reported
-EnoughAnswer == Satisfies({l \in Logs : outcome[l] = "sct"})
+\* when enough logs answer successfully and the caller does not cancel, success is reported.  "Enough" is judged per
+\* group over the logs the group itself asks, i.e. its session: which members outside its session another group happens
+\* to ask depends on the (random) order of that group's session.  With full sessions this is Satisfies(Answering).
+\* (For the logs that did answer, FailureHonest is the same clause as a safety property: if the SCTs obtained satisfy
+\* every group, success is reported.)
+EnoughAnswer == \A g \in Groups : Cardinality(Answering \cap sess[g]) >= Min[g]
 SuccessComplete == (EnoughAnswer /\ ~MayCancel) => <>(ret # NoRet /\ ~ret.err)
 =============================================================================
